@@ -254,10 +254,17 @@ def reachable_ratings(obj, out=None, seen=None, depth=0):
 
 
 def rating_digest(objs):
-    return [
-        [enc(getattr(o, "mu", None)), enc(getattr(o, "sigma", None)), enc(getattr(o, "sigma_squared", None)),
-         getattr(o, "id", None) if isinstance(getattr(o, "id", None), (str, int, type(None))) else repr(getattr(o, "id", None)),
-         getattr(o, "name", None) if isinstance(getattr(o, "name", None), (str, type(None))) else repr(getattr(o, "name", None)),
-         sorted(k for k in getattr(o, "__dict__", {}))]
-        for o in objs
-    ]
+    """Everything a rating-like object holds: the public fields and the canonical value of
+    EVERY instance attribute (a private attribute whose value changes shows up too)."""
+    out = []
+    for o in objs:
+        attrs = instance_attrs(o)
+        out.append([
+            type(o).__name__,
+            enc(getattr(o, "mu", None)) if isinstance(getattr(o, "mu", None), (int, float, type(None))) else repr(getattr(o, "mu", None))[:60],
+            enc(getattr(o, "sigma", None)) if isinstance(getattr(o, "sigma", None), (int, float, type(None))) else repr(getattr(o, "sigma", None))[:60],
+            getattr(o, "id", None) if isinstance(getattr(o, "id", None), (str, int, type(None))) else repr(getattr(o, "id", None)),
+            getattr(o, "name", None) if isinstance(getattr(o, "name", None), (str, type(None))) else repr(getattr(o, "name", None)),
+            sorted([k, repr(_canon(v, 2, False))] for k, v in attrs.items() if k != "team"),
+        ])
+    return out
